@@ -276,7 +276,19 @@ impl Run {
             let v = read_json(&path.to_string_lossy());
             let r = eval(&v);
             match (f.status.as_str(), r) {
-                ("known", Err(_)) => self.known(&format!("{} {}", f.id, f.what)),
+                ("known", Err(m)) => {
+                    // a known finding is identified by its signature; a different failure of the
+                    // same input is a new violation
+                    let sig = f.matcher["message_contains"].as_str().unwrap_or("");
+                    if m.contains(sig) {
+                        self.known(&format!("{} {}", f.id, f.what));
+                    } else {
+                        let p = path.to_string_lossy().to_string();
+                        println!("VIOLATION property={} replay={}", self.property, p);
+                        println!("  the canary of known finding {} fails differently than recorded: {}", f.id, m.lines().next().unwrap_or(""));
+                        self.violations.push((p, m));
+                    }
+                }
                 ("known", Ok(())) => println!("note: known finding {} ({}) no longer reproduces on this tree", f.id, f.what),
                 (_, Err(m)) => {
                     let p = path.to_string_lossy().to_string();
